@@ -28,9 +28,22 @@ def check(ctx):
     n += check_loose(ctx, loose_for("C24"))
     ctx.count("twin_pairs", n)
     ctx.floor("twin_pairs", 3)
+    # ---------------- axis bookkeeping that exists once (not in the expression engine)
+    import ast as _ast
+    from ..lib import find, returns, unparse, walk_no_nested
+    nc = ctx.model.module("dask/array/numpy_compat.py").func("moveaxis")
+    loops = [l for l in walk_no_nested(nc) if isinstance(l, _ast.For)]
+    ok = len(loops) == 1 and unparse(loops[0].target) == "(dest, src)" and unparse(loops[0].iter) == "sorted(zip(destination, source))" and bool(find("order.insert(dest, src)", loops[0])) and bool(find("order = [n for n in range(a.ndim) if n not in source]", nc))
+    ctx.ob("ALG.moveaxis", nc, "moveaxis: the moved axes are re-inserted in ascending DESTINATION order (for dest, src in sorted(zip(destination, source)))", ok, "" if ok else "inserting in another order shifts the positions of later insertions: several axes moved at once end up in the wrong places")
+    ok = any(unparse(r.value) == "result" for r in returns(nc)) and bool(find("result = a.transpose(order)", nc))
+    ctx.ob("ALG.moveaxis.apply", nc, "moveaxis = a.transpose(order)", ok)
+    ed = ctx.model.module("dask/array/routines.py").func("expand_dims")
+    ok = bool(find("shape = [1 if ax in axis else next(shape_it) for ax in range(out_ndim)]", ed)) and bool(find("shape_it = iter(a.shape)", ed)) and bool(find("axis = validate_axis(axis, out_ndim)", ed)) and bool(find("out_ndim = len(axis) + a.ndim", ed))
+    ctx.ob("ALG.expand-dims", ed, "expand_dims: the output shape is built position by position (1 where the axis is new, else the next input length), independent of the order in which axes are listed", ok, "" if ok else "the new axes are placed one after the other in the order given: an unsorted axis tuple yields a different shape than NumPy")
 
 
 VARIANTS = [
+    ("dask/array/numpy_compat.py", "    for dest, src in sorted(zip(destination, source)):\n        order.insert(dest, src)", "    for src, dest in sorted(zip(source, destination)):\n        order.insert(dest, src)", "ALG.moveaxis"),
     ("dask/array/core.py", "    cum_dims = [0] + list(accumulate(add, [len(a.chunks[axis]) for a in seq2]))", "    cum_dims = [1] + list(accumulate(add, [len(a.chunks[axis]) for a in seq2]))", "TWIN.agree"),
     ("dask/array/creation.py", "        chunks[axis] = (chunks[axis][0] * repeats,)", "        chunks[axis] = (chunks[axis][0] + repeats,)", "TWIN.agree"),
 ]
